@@ -1,4 +1,5 @@
 import SeqIoModel.Proofs.WriteRoundtrip
+import SeqIoModel.Proofs.EndToEnd
 import SeqIoModel.Proofs.Unchanged
 import SeqIoModel.Proofs.FastaUnchanged
 /-!
@@ -107,5 +108,14 @@ theorem fasta_write_unchanged_file (recs : List (List UInt8 × List (List UInt8)
 /-- the blank-line normalisation on a concrete input: `>a⏎⏎>b⏎` is written back as `>a⏎>b⏎` -/
 example : Fasta.Unch.runWrites 3 (Fasta.mkReader [62, 97, 10, 10, 62, 98, 10] 3 PolDesc.std.toPol [] 2) =
     some [62, 97, 10, 62, 98, 10] := by decide
+
+/-- end to end: a record written by `fastq::write_to` and read back by the FASTQ reader at ANY capacity ≥ 3,
+never-refusing policy and chunking is exactly that record, then end of input (composition with C02) -/
+theorem fastq_written_record_reads_back (h s q : List UInt8) (hh : HeadOk h) (hsq : FieldOk s) (hq : FieldOk q)
+    (hl : s.length = q.length) (cap : Nat) (hcap : 3 ≤ cap) (pol : Pol) (hpol : PolOk pol)
+    (script : List ReadEv) (hs : FillProofs.NoFail script) (chunk k : Nat) :
+    Fastq.runNexts k (Fastq.mkReader (Write.fqTo h s q) cap pol script chunk) =
+      ([Fastq.Obs.record h s q 1 0] ++ List.replicate k Fastq.Obs.none).take k :=
+  E2E.fastq_written_record_reads_back h s q hh hsq hq hl cap hcap pol hpol script hs chunk k
 
 end SeqIo.Thm.C11
